@@ -42,6 +42,8 @@ TECMP::LinPayload::LinPayload()
 TECMP::LinPayload::LinPayload(const uint8_t* data, const size_t size)
     : Payload(TECMP::PayloadType::lin, data, size)
 {
+    if (size < sizeof(Header) || getDataLength() > size - sizeof(Header))
+        setType(TECMP::PayloadType::invalid);
 }
 const uint8_t* TECMP::LinPayload::getData() const
 {
